@@ -230,6 +230,14 @@ func (ip *Inode) indbmap(atxn *alloctxn.AllocTxn, root_ common.Bnum, level uint6
 	nxtroot := buf.BnumGet(bo)
 	util.DPrintf(1, "%d next root %v level %d\n", root, nxtroot, level)
 	blkno, newnextroot := ip.indbmap(atxn, nxtroot, level-1, ind)
+	if blkno == common.NULLBNUM && root_ == common.NULLBNUM {
+		// Out of space below an index block that this call allocated:
+		// give the index block back, or it would stay attached to the
+		// inode (or just marked in the bitmap) beyond the file's size and
+		// never be freed.
+		atxn.FreeBlock(root)
+		return common.NULLBNUM, common.NULLBNUM
+	}
 	atxn.AssertValidBlock(newnextroot)
 	atxn.AssertValidBlock(blkno)
 	if newnextroot != nxtroot {
